@@ -32,6 +32,7 @@ import Bmc.Proofs.EndToEnd.HistoryC09Fail
 #print axioms Bmc.Proofs.EndToEnd.generated_sessionless_history
 #print axioms Bmc.Proofs.EndToEnd.generated_sessionless_history_ignores_connection
 #print axioms Bmc.Proofs.EndToEnd.generated_sessionless_history_null
+#print axioms Bmc.Proofs.EndToEnd.generated_sessionless_history_results
 #print axioms Bmc.Proofs.EndToEnd.generated_session_then_history_sequence_numbers
 #print axioms Bmc.Proofs.EndToEnd.sendLoop_keys_any
 #print axioms Bmc.Proofs.EndToEnd.generatedHistory_eq_any
